@@ -46,6 +46,7 @@ fn run(ctx: &mut Ctx, extra: &mut BTreeMap<String, String>) {
 
 pub fn judge_cell(ctx: &mut Ctx, depth: u8, h: u64, rng: &mut Rng) {
   let t = true_c2v(depth, h);
+  ctx.worst_max("largest_true_centre_to_vertex_distance_x_nside", t * nside(depth) as f64);
   let layer = nested::get_or_create(depth);
   for q in 0..3 {
     let p = if q == 0 { ref_center(depth, h) } else { ref_sph_coo(depth, h, 0.02 + 0.96 * rng.f(), 0.02 + 0.96 * rng.f()) };
